@@ -38,7 +38,10 @@ contract("C19.cache_lock_exit",
 contract("C19.write_last_cached_time",
          file="hed/schema/hed_cache_lock.py", func="_write_last_cached_time",
          params={"new_time": "Real", "cache_folder": "Str"}, returns=None, enc="native",
-         raises={"ValueError": "True"}, ensures={"C19.L3.write_only_documented_error": "True"})
+         raises={"ValueError": "True"}, ghost={"init": {"fs_non_truncating_opens": "0"}},
+         ensures={"C19.L3.write_only_documented_error": "True",
+                  # bookkeeping: the file holds THE time of the last refresh - it is replaced, never appended to (the reader takes the first line)
+                  "C19.L3.timestamp_replaces_the_previous_one": "fs_non_truncating_opens == 0"})
 
 # C19 L2: atomic publication - a non-atomic copy never targets a name that the cache serves
 contract("C19.copy_installed_folder_to_cache",
